@@ -258,6 +258,10 @@ pub struct Case {
     /// 5 bytes sum to 0 mod 256, 6 contains an ff byte; 0 = no constraint
     #[serde(default)]
     pub witness: u8,
+    /// which secret the value witness is about (context cases): 0 exporter secret, 1 AEAD key (the
+    /// stack temporary of the key schedule), 2 base nonce
+    #[serde(default)]
+    pub target: u8,
 }
 
 fn shape_ok(w: u8, v: &[u8]) -> bool {
@@ -310,12 +314,12 @@ impl Part for C16 {
                 for what in [What::SenderCtx, What::ReceiverCtx] {
                     for ops in histories(cfg.tier.thorough()) {
                         tag += 1;
-                        v.push(Case { suite, mode, what: what.clone(), ops, tag, witness: 0 });
+                        v.push(Case { suite, mode, what: what.clone(), ops, tag, witness: 0, target: 0 });
                     }
                 }
                 for what in [What::EncapSecret, What::DecapSecret] {
                     tag += 1;
-                    v.push(Case { suite, mode, what, ops: vec![], tag, witness: 0 });
+                    v.push(Case { suite, mode, what, ops: vec![], tag, witness: 0, target: 0 });
                 }
             }
         }
@@ -327,8 +331,11 @@ impl Part for C16 {
             }
             for witness in 1..=6u8 {
                 for (mode, what) in [(Mode::Base, What::EncapSecret), (Mode::Auth, What::DecapSecret), (Mode::Base, What::SenderCtx), (Mode::Psk, What::ReceiverCtx)] {
-                    tag += 1;
-                    v.push(Case { suite, mode, what, ops: vec![Op::Msg], tag, witness });
+                    let targets: &[u8] = if matches!(what, What::SenderCtx | What::ReceiverCtx) { &[0, 1, 2] } else { &[0] };
+                    for &target in targets {
+                        tag += 1;
+                        v.push(Case { suite, mode, what: what.clone(), ops: vec![Op::Msg], tag, witness, target });
+                    }
                 }
             }
         }
@@ -357,7 +364,11 @@ impl Part for C16 {
                 }
             };
             let observed: Vec<u8> = match c.what {
-                What::SenderCtx | What::ReceiverCtx => r.1.exporter_secret.clone(),
+                What::SenderCtx | What::ReceiverCtx => match c.target {
+                    1 => r.1.key.clone(),
+                    2 => r.1.base_nonce.clone(),
+                    _ => r.1.exporter_secret.clone(),
+                },
                 _ => {
                     let (sk_e, _, _) = c.suite.kem.derive_keypair(&k.ikm_e);
                     let auth = if c.mode.has_auth() { Some(&k.sk_s[..]) } else { None };
